@@ -355,6 +355,11 @@ func prepare(r *hc.RNG, payload []byte, pool []int64) *caseIn {
 				out = append(out, x)
 			}
 		}
+		for _, x := range cands { // near misses of named ids
+			if r.Chance(15) {
+				out = append(out, x+hc.Pick[uint64](r, 1, 4, 1<<32, ^uint64(0), ^uint64(3)))
+			}
+		}
 		for i := r.Intn(3); i > 0; i-- { // ids the payload does not name
 			if r.Bool() {
 				out = append(out, uint64(pool[r.Intn(len(pool))]))
